@@ -13,6 +13,9 @@ fn paused_until(s: &PanicState, now: i64) -> i64 {
 }
 
 pub fn run(rng: &mut Rng, n: usize, rep: &mut Report) {
+    // the gated user instructions themselves, through real dispatch, once the pause has run out (one cell per 100 operations of
+    // the state-machine histories below)
+    crate::mon_c14::run_lapsed(rng, (n / 100).max(60), rep);
     let mut ops_done = 0usize;
     while ops_done < n {
         let mut s = PanicState::default();
